@@ -7,7 +7,8 @@
 //   norace-guarded-reader   worker A: addSuppression x N, worker B concurrently: getSuppressions (locks)          -> no report
 //   norace-main-phase       worker A: addSuppression x N, joined; then the main thread: getUnmatchedInlineSuppressions -> no report
 //   methods                 lists the member functions `pair` knows:  S:<name> ... T:<name> ...
-//   pair <S|T> <a> <b>      two threads call member function <a> resp. <b> of ONE shared SuppressionList (S) / TimerResults (T)
+//   (the three control ops take an optional size argument)
+//   pair <S|T> <a> <b> [n]  two threads call member function <a> resp. <b> of ONE shared SuppressionList (S) / TimerResults (T)
 //                           in a loop.  P_impl for the member functions the phase table calls worker-phase: no TSan report.
 #include "common.h"
 #include "errorlogger.h"
@@ -27,7 +28,7 @@
 #include <sstream>
 #include <thread>
 
-static const int N = 3000;
+static int N = 3000;
 
 static void writer(SuppressionList &sl, std::atomic<bool> &done)
 {
@@ -138,20 +139,23 @@ static std::map<std::string, Fn> timerMethods(TimerResults &tr)
     return m;
 }
 
-// both threads keep calling until each has made at least n calls (bounded by 6n): the two loops overlap in time, which
-// is what the detector needs (a reader that finishes before the writer's first store is not reported reliably)
+// both threads keep calling until each has made at least n calls (bounded by a deadline): the two loops overlap in time,
+// which is what the detector needs (a reader that finishes before the writer's first store is not reported reliably, and on a
+// loaded machine one thread may not be scheduled at all while the other runs a fixed number of calls)
 static void runPair(const Fn &a, const Fn &b, int n)
 {
     std::atomic<int> ready{0};
     std::atomic<int> finished{0};
-    const int cap = 6 * n;
+    const auto deadline = std::chrono::steady_clock::now() + std::chrono::seconds(20);
     auto body = [&](const Fn &f) {
         ++ready;
         while (ready < 2) {}
-        for (int i = 0; i < cap && (i < n || finished < 2); ++i) {
+        for (int i = 0; i < n || finished < 2; ++i) {
             f(i);
             if (i + 1 == n)
                 ++finished;
+            if ((i & 63) == 63 && std::chrono::steady_clock::now() > deadline)
+                break;
         }
     };
     std::thread ta(body, std::cref(a));
@@ -171,6 +175,8 @@ int main()
         SuppressionList sl;
         std::atomic<bool> done{false};
         std::size_t seen = 0;
+        if (f[0] != "pair" && f.size() >= 2)
+            N = std::atoi(f[1].c_str());     // optional size argument of the control ops
         if (f[0] == "race-unguarded-reader" || f[0] == "norace-guarded-reader") {
             const bool guarded = f[0] == "norace-guarded-reader";
             std::thread a(writer, std::ref(sl), std::ref(done));
@@ -195,7 +201,7 @@ int main()
             for (const auto &p : timerMethods(tr))
                 out += " T:" + p.first;
             std::cout << "methods" << out << std::endl;
-        } else if (f[0] == "pair" && f.size() == 4) {
+        } else if (f[0] == "pair" && (f.size() == 4 || f.size() == 5)) {
             TimerResults tr;
             const std::map<std::string, Fn> ms = (f[1] == "S") ? suppressionMethods(sl, env) : timerMethods(tr);
             const auto a = ms.find(f[2]);
@@ -211,7 +217,7 @@ int main()
                 (void)sl.addSuppression(std::move(s));
                 tr.addResults("t" + std::to_string(i % 13), std::chrono::milliseconds(1));
             }
-            runPair(a->second, b->second, 300);
+            runPair(a->second, b->second, f.size() == 5 ? std::atoi(f[4].c_str()) : 300);
             std::cout << "pair " << f[1] << ' ' << f[2] << ' ' << f[3] << " done" << std::endl;
         } else {
             std::cout << "unknown-op" << std::endl;
